@@ -103,6 +103,12 @@ def main(tier, all_violations=False, t0=None):
             init, ops = hist.path_to(res["parent"], v["state"])
             viol.append({"site": "index:" + v["site"], "detail": v["detail"], "case": {"initial": hist.describe_key(init), "history": ops, "state": hist.describe_key(v["state"]), "op": v["op"], "tier": tier, "part": "index"}})
     others = sum(1 for v in res["violations"] if v["property"] != "C17")
+    # (a') operands of the entry-wise updates in every representation, wide / tall indexes
+    from .. import bigops
+
+    bv, bc = bigops.family(None, tier, "C17")
+    for v in bv:
+        viol.append({"site": "index:" + v["site"], "detail": v["detail"], "case": {"part": "index", "op": v["op"], "state": None, "tier": tier}})
     # (c)
     for v in construction_checks():
         viol.append({"site": v["site"], "detail": v["detail"], "case": {"part": "construct"}})
